@@ -89,6 +89,8 @@ inductive Target where
   | entry (i : Nat)
   | selfMeth (j : Nat)
   | clsSelf
+  | classMeth (c j : Nat)     -- `Cls.factory(…)`: classmethod `j` of the ones class `c` offers (own and inherited)
+  | attrEntry (i : Nat)       -- entry `i` reached through an attribute: `self._kw = kwargs` … `entry_i(…, **self._kw)`
 deriving DecidableEq, Repr
 
 inductive Use where
@@ -228,6 +230,14 @@ def targetFrame (wh : Where) : Target → Option Frame
     match wh with
     | .cmeth owner => some (.entry owner)
     | _ => none
+  | .classMeth c j => some (.cmeth c j)
+  | .attrEntry i => some (.entry i)
+
+/-- the attribute-use path (`get_parameters_attr_use_in_members` → `match_call_that_uses_attr`) calls
+    `remove_given_parameters` WITHOUT the shared `removed_params` set -/
+def Target.updatesRemoved : Target → Bool
+  | .attrEntry _ => false
+  | _ => true
 
 /-- `remove_given_parameters`: positional indexes `0..k-1`, then keyword names -/
 def removeGiven (k : Nat) (given : List String) (ps : List Param) : List Param :=
@@ -258,10 +268,10 @@ def liveUses (us : List GUse) : List Use :=
   (us.filter (fun g => !g.guard.dead)).map (·.use)
 
 /-- one forwarding call: resolve the callee, remove what the call hard-codes -/
-def addForward (a : Acc) (k : Nat) (given : List String) (r : List Param) : Acc :=
+def addForward (a : Acc) (k : Nat) (given : List String) (r : List Param) (upd : Bool) : Acc :=
   let kept := removeGiven k given r
   { lists := if kept.isEmpty then a.lists else a.lists ++ [(false, kept)],
-    removed := a.removed ++ (names r).filter (fun n => decide (n ∈ given)) }
+    removed := if upd then a.removed ++ (names r).filter (fun n => decide (n ∈ given)) else a.removed }
 
 def collect (rec : Frame → Out) (P : Prog) (wh : Where) : List Use → Acc → AccOut
   | [], a => .ok a
@@ -269,18 +279,18 @@ def collect (rec : Frame → Out) (P : Prog) (wh : Where) : List Use → Acc →
   | .get n d :: us, a => collect rec P wh us { a with lists := a.lists ++ [(true, [popParam n d])] }
   | .superCall frm k given :: us, a =>
     match superFrame P wh frm with
-    | none => collect rec P wh us (addForward a k given [])
+    | none => collect rec P wh us (addForward a k given [] true)
     | some fr =>
       match rec fr with
-      | .ok r => collect rec P wh us (addForward a k given r)
+      | .ok r => collect rec P wh us (addForward a k given r true)
       | .crash => .crash
       | .nofuel => .nofuel
   | .call t k given :: us, a =>
     match targetFrame wh t with
-    | none => collect rec P wh us (addForward a k given [])
+    | none => collect rec P wh us (addForward a k given [] t.updatesRemoved)
     | some fr =>
       match rec fr with
-      | .ok r => collect rec P wh us (addForward a k given r)
+      | .ok r => collect rec P wh us (addForward a k given r t.updatesRemoved)
       | .crash => .crash
       | .nofuel => .nofuel
 
@@ -421,6 +431,16 @@ def mroAfter (x : Nat) : List Nat → List Nat
   | [] => []
   | d :: rest => if d = x then rest else mroAfter x rest
 
+/-- calling entry `i` as a whole: a function, or a class (its `__init__` is looked up along its MRO) -/
+def calleeEntry (P : Prog) (i : Nat) : Option (Frame × Callable) :=
+  match P.entries[i]? with
+  | some (.fn c) => some (.entry i, c)
+  | some (.cls k) =>
+    match dispatchInit P (i :: k.mro) with
+    | some (_, c, _) => some (.entry i, c)
+    | none => none
+  | none => none
+
 /-- the callable a call reaches at run time, as a frame plus its signature -/
 def callee (P : Prog) (wh : Where) : Use → Option (Frame × Callable)
   | .superCall frm _ _ =>
@@ -433,13 +453,11 @@ def callee (P : Prog) (wh : Where) : Use → Option (Frame × Callable)
       | some (d, c, s) => some (.init root d s, c)
       | none => none
     | _ => none
-  | .call (.entry i) _ _ =>
-    match P.entries[i]? with
-    | some (.fn c) => some (.entry i, c)
-    | some (.cls k) =>
-      match dispatchInit P (i :: k.mro) with
-      | some (_, c, _) => some (.entry i, c)
-      | none => none
+  | .call (.entry i) _ _ => calleeEntry P i
+  | .call (.attrEntry i) _ _ => calleeEntry P i      -- the method/property that forwards the stored kwargs
+  | .call (.classMeth c j) _ _ =>
+    match P.cmeth? c j with
+    | some cal => some (.cmeth c j, cal)
     | none => none
   | .call (.selfMeth j) _ _ =>
     match wh with
@@ -545,9 +563,9 @@ def maxMro : List Entry → Nat
   | .fn _ :: r => maxMro r
 
 /-- width of one entry's band of the termination measure -/
-def Prog.width (P : Prog) : Nat := maxMro P.entries + 4
+def Prog.width (P : Prog) : Nat := maxMro P.entries + 6
 
-/-- enough fuel for every frame of an acyclic program (number of entries × (longest MRO + 4)) -/
+/-- enough fuel for every frame of an acyclic program (number of entries × (longest MRO + 6)) -/
 def Prog.bound (P : Prog) : Nat := (P.entries.length + 1) * P.width
 
 /-- what can be asked -/
@@ -633,6 +651,8 @@ def useOK (site : Site) (self nMeths : Nat) : Use → Bool
   | .call (.entry j) _ _ => decide (j < self)
   | .call (.selfMeth j) _ _ => site = .init && decide (j < nMeths)
   | .call .clsSelf _ _ => site = .cmeth
+  | .call (.classMeth c _) _ _ => decide (c < self)
+  | .call (.attrEntry j) _ _ => site = .init && decide (j < self)
 
 /-- the signature a whole-entry call binds against (function, or the `__init__` found along the MRO) -/
 def entrySig (P : Prog) (i : Nat) : Option Callable :=
@@ -656,6 +676,14 @@ def callPosOK (P : Prog) (self : Nat) (meths : List Callable) : Use → Bool
     | none => true
   | .call .clsSelf k _ =>
     match entrySig P self with
+    | some c => posOK k c
+    | none => true
+  | .call (.classMeth c j) k _ =>
+    match P.cmeth? c j with
+    | some cal => posOK k cal
+    | none => true
+  | .call (.attrEntry j) k _ =>
+    match entrySig P j with
     | some c => posOK k c
     | none => true
   | _ => true
